@@ -68,6 +68,10 @@ def gen(consts, simulate=None, extra=None, timeout=3000):
         tail = "\n".join(l for l in out.splitlines() if not l.startswith('<<"REPLAY"'))[-3000:]
         raise vc.ToolError("TLC reported an error on %s %s:\n%s" % (MODULE, consts, tail))
     g, dist = vc.tlc_stats(out)
+    if simulate is not None:
+        import re
+        mo = re.search(r"The number of states generated: (\d+)", out)
+        g = dist = int(mo.group(1)) if mo else 0        # the simulator does not count distinct states
     hists = vc.extract_tagged(out, "REPLAY")
     stats = {"states_generated": g, "distinct_states": dist, "mc_ok": True, "wall": round(time.time() - t0, 1), "consts": consts,
              "simulate": simulate}
